@@ -428,7 +428,7 @@ func (c *Ctx) c07ExpiredAccessors(b BK) {
 	if b.Name == "syncMap" {
 		return
 	}
-	if obj := c.Pkg.Types.Scope().Lookup(et); obj != nil {
+	if obj := c.lookupType(et); obj != nil {
 		if st, ok := obj.Type().Underlying().(*types.Struct); ok {
 			hasEntry := false
 			for i := 0; i < st.NumFields(); i++ {
@@ -843,6 +843,10 @@ func (c *Ctx) shardCoverage(rule, op string, paths []*pw.Path, replaceOK bool) (
 				c.R.Bad(rule, op, "shard-skipped", c.Pos(g.begin.Pos), "a step of the loop over the shards neither scans, measures nor replaces that shard's map: its entries are left out of the operation", shortTrace(p))
 			}
 		}
+	}
+	if n == 0 {
+		ok = false
+		c.R.Unknown(rule, op, "no step of a loop over the shard array found (the shard array does not resolve)")
 	}
 	return n, ok
 }
